@@ -33,7 +33,7 @@ RULE = (
     "by case digest."
 )
 MANIFEST = {
-    "text": "Differential search over configurations and call histories: the same operation on the same input is observed in several interpreters with different hash seeds, at different positions of generated histories (including after rejected inputs that leave the shared ANTLR prediction cache partially built), alone in a cold process, and inside concurrent sections; all observations must agree. The thread part is stress (the harness does not own CPython's schedule) and can only refute.",
+    "text": "Differential search over configurations and call histories: the same operation on the same input is observed in several interpreters with different hash seeds, at different positions of generated histories (including after rejected TUCAN strings that leave the shared ANTLR prediction cache partially built, and after damaged molfiles that the readers reject half-way), alone in a cold process, and inside concurrent sections; all observations must agree. The thread part is stress (the harness does not own CPython's schedule) and can only refute.",
     "note": "CPython gives the harness no control over thread interleavings: concurrent sections are stress under a 1 us switch interval, not schedule enumeration. Timeouts are inconclusive.",
     "technique": "property-based differential testing over generated call histories x hash seeds x threads (Hypothesis histories, forked cold children in persistent server interpreters)",
 }
